@@ -25,9 +25,18 @@ package main
 //    function redefined, a constant deleted and rebound, many functions defined and redefined, each
 //    followed by a call).  OrderLaws!HistoryUniverse is such a session; half of the random
 //    universes are, too.  The table is recorded after the last epoch: old against new values.
+//    A text denotes one value (round 6): the source text of every value is read again - in a later input,
+//    twice in one input, through eval, in another interpreter state, after the table was recorded - and each
+//    reading is compared with the first one of the session (laws reread_equal / reread_equivalent); the pair
+//    observations of (x, x) and (x, next of x) are asked again at the end (answers_repeat).  What a text
+//    evaluates to the first time a process reads it calibrates the harness's notation (exit 2 on a mismatch
+//    then); a later difference is an observation.  Sums of maps have operands of their own (`cut`,
+//    OrderLaws!Sum / Seams): every kind of overlap at the boundary between the operands.
 // 3. table run (TLC, Mode = "table"): the laws over all pairs and triples of every batch - batch 1
 //    is the model's own table (MC of the documented order, must be clean), then the recorded ones.
 //    TLC names every broken law instance; each is re-evaluated on the real code (c12ReplayInstance)
+//    (in this process, then the universe of its batch, then in a process of its own; broken nowhere again = the
+//    same input with two outcomes = a violation "-not-repeatable")
 //    and becomes c.Fail with a narrow signature <feature of the values>-<law family>.  Entries that
 //    differ from GrolOrder are evidence (`model_disagreement`), never a violation.
 // 4. binding self-test: a table with one corrupted entry (the last batch of the table run, src =
@@ -40,9 +49,12 @@ import (
 	"context"
 	"encoding/json"
 	"fmt"
+	"io"
 	"math"
 	"math/rand"
 	"os"
+	"os/exec"
+	"path/filepath"
 	"sort"
 	"strconv"
 	"strings"
@@ -61,6 +73,105 @@ func init() {
 		rule: "case = all observations for one ordered pair (x, y) of a universe on the real code (object.Cmp, object.Equals, map lookup, < <= > >= == != {x:1}[y] at top level and inside a function, min, max), each pair record then checked by TLC (pair laws at (x,y), triple laws for every z); distinct by the pair of values; non-trivial when x and y are structurally different values"}
 }
 
+func init() {
+	// one law instance re-evaluated in a process of its own (nothing has been read or compared there before):
+	// `vh worker c12inst <file>` reads {law, info, values, x, y, z} and prints {"holds": .., "msg": ..}
+	workers["c12inst"] = func(args []string) {
+		out := map[string]any{"holds": false, "msg": "usage: worker c12inst <file>"}
+		if len(args) == 1 {
+			if b, err := os.ReadFile(args[0]); err != nil {
+				out["msg"] = err.Error()
+			} else {
+				var rp map[string]any
+				if err := json.Unmarshal(b, &rp); err != nil {
+					out["msg"] = err.Error()
+				} else {
+					delete(rp, "fresh_process")
+					out["holds"], out["msg"] = replayC12(rp)
+				}
+			}
+		}
+		_ = json.NewEncoder(os.Stdout).Encode(out)
+	}
+}
+
+// c12ReadInFreshProcess: what the source text evaluates to (canon of the abstract value) when it is the first thing a
+// process of its own reads - the calibration of a text this process meets for the first time as a whole while
+// its literals have been read before in other texts.
+func c12ReadInFreshProcess(text string) (string, error) {
+	exe, err := os.Executable()
+	if err != nil {
+		return "", err
+	}
+	ctx, cancel := context.WithTimeout(context.Background(), 2*time.Minute)
+	defer cancel()
+	cmd := exec.CommandContext(ctx, exe, "worker", "c12read")
+	cmd.Stdin = strings.NewReader(text)
+	cmd.Dir = os.TempDir()
+	out, err := cmd.Output()
+	if err != nil {
+		return "", fmt.Errorf("c12read child: %w", err)
+	}
+	lines := strings.Split(strings.TrimSpace(string(out)), "\n")
+	last := lines[len(lines)-1]
+	if !strings.HasPrefix(last, "CANON ") {
+		return "", fmt.Errorf("c12read child said %q", out)
+	}
+	return strings.TrimPrefix(last, "CANON "), nil
+}
+
+func init() {
+	workers["c12read"] = func([]string) {
+		text, _ := io.ReadAll(os.Stdin)
+		z := c12NewSess()
+		if st, msg := z.run("zqv1 = " + string(text)); st != 0 {
+			fmt.Printf("CANON error: %s\n", strings.ReplaceAll(msg, "\n", " "))
+			return
+		}
+		o, st := z.get("zqv1")
+		if st != 0 {
+			fmt.Println("CANON unreadable")
+			return
+		}
+		fmt.Println("CANON " + c12Abstract(o).canon())
+	}
+}
+
+// c12FreshProcess re-evaluates one law instance in a child process: what a text evaluates to, or what a
+// comparison answers, the FIRST time in a process (err != nil: the child could not be run).
+func c12FreshProcess(dir string, rp map[string]any) (holds bool, msg string, err error) {
+	exe, err := os.Executable()
+	if err != nil {
+		return false, "", err
+	}
+	f, err := os.CreateTemp(dir, "c12inst-*.json")
+	if err != nil {
+		return false, "", err
+	}
+	defer os.Remove(f.Name())
+	b, _ := json.Marshal(rp)
+	_, _ = f.Write(b)
+	_ = f.Close()
+	ctx, cancel := context.WithTimeout(context.Background(), 5*time.Minute)
+	defer cancel()
+	cmd := exec.CommandContext(ctx, exe, "worker", "c12inst", f.Name())
+	cmd.Dir = filepath.Dir(f.Name())
+	cmd.Stderr = nil
+	out, err := cmd.Output()
+	if err != nil {
+		return false, "", fmt.Errorf("c12inst child: %w", err)
+	}
+	var res struct {
+		Holds bool   `json:"holds"`
+		Msg   string `json:"msg"`
+	}
+	lines := bytes.Split(bytes.TrimSpace(out), []byte("\n"))
+	if err := json.Unmarshal(lines[len(lines)-1], &res); err != nil {
+		return false, "", fmt.Errorf("c12inst child said %q", out)
+	}
+	return res.Holds, res.Msg, nil
+}
+
 // ---------------------------------------------------------------------------- abstract values
 
 // c12Val is the JSON form of an abstract value of spec/GrolOrder.tla.
@@ -73,6 +184,7 @@ type c12Val struct {
 	// numbers, the notation of the literal: "hex" | "under" | "lit" (integers), "intlit" | "exp" (floats)
 	How string `json:"how,omitempty"`
 	Ep  *int   `json:"ep,omitempty"`  // epoch of the session in which the value is made
+	Cut *int   `json:"cut,omitempty"` // "merged": the first `cut` pairs of v are the left operand, the others the right one (OrderLaws!Sum)
 }
 
 func (a c12Val) epoch() int {
@@ -212,9 +324,12 @@ func c12Written(a c12Val) bool {
 }
 
 // c12MergeSplit: a merged map of n pairs is the sum of its first k pairs and the others: "merged" halves,
-// "merged_head" the first pair + the rest, "merged_tail" all but the last pair + the last.
-func c12MergeSplit(n int, how string) int {
+// "merged_head" the first pair + the rest, "merged_tail" all but the last pair + the last; `cut` names k itself.
+func c12MergeSplit(a c12Val, n int) int {
+	how := a.How
 	switch {
+	case a.Cut != nil && *a.Cut >= 0 && *a.Cut <= n: // a sum with operands of its own (they may share keys)
+		return *a.Cut
 	case how == "merged_head" && n > 0:
 		return 1
 	case how == "merged_tail" && n > 0:
@@ -359,7 +474,7 @@ func c12SourceAt(a c12Val, depth int) string {
 			sb.WriteString(";" + m + "}()")
 			return sb.String()
 		case c12IsMerged(a.How): // the sum of two maps: the leading pairs + the trailing pairs
-			k := c12MergeSplit(len(ps), a.How)
+			k := c12MergeSplit(a, len(ps))
 			return "({" + strings.Join(parts[:k], ",") + "}+{" + strings.Join(parts[k:], ",") + "})"
 		}
 		return "{" + strings.Join(parts, ",") + "}"
@@ -484,6 +599,11 @@ func c12Build(a c12Val, z *c12Sess) (object.Object, error) {
 				return nil, fmt.Errorf("source %q: %s", c12Source(a), msg)
 			}
 			if o, st := z.get("zqfn"); st == 0 && o.Type() == object.ARRAY {
+				if !c12Matches(a, c12Abstract(o)) {
+					// the interpreter made something else of the text (a literal read again as another value):
+					// the reference is the array of the constructed elements, the difference shows in xc / xe
+					return object.NewArray(objs), nil
+				}
 				return o, nil
 			}
 			return nil, fmt.Errorf("source %q did not evaluate to an array", c12Source(a))
@@ -496,7 +616,7 @@ func c12Build(a c12Val, z *c12Sess) (object.Object, error) {
 		case a.How == "grown": // starts as the empty map, whatever it will hold
 			m = object.NewMap()
 		case c12IsMerged(a.How): // the leading pairs as one map, the trailing pairs as another, appended
-			k := c12MergeSplit(len(ps), a.How)
+			k := c12MergeSplit(a, len(ps))
 			left, err := c12Build(c12Map(ps[:k]), z)
 			if err != nil {
 				return nil, err
@@ -827,6 +947,77 @@ func c12Quiet() (restore func()) {
 	}
 }
 
+// c12FirstReading: what each source text evaluated to the first time this process read it back and found it to
+// be the constructed object (the calibration of the harness's notation: a mismatch THEN is the harness's mistake,
+// exit 2).  A calibrated text that evaluates to something else later is the interpreter's doing: the text is read
+// a second time and denotes another value - recorded as an observation (xc / xe and the reread routes), judged
+// by the laws.
+var c12FirstReading = map[string]string{}
+
+// c12Routes are the ways in which the source text of a value is read again (OrderLaws!Routes), with the field
+// prefixes of the two vectors (cmp / eq between the first reading and this one).
+var c12Routes = []struct{ tag, pfx string }{{"again", "ya"}, {"twice", "yt"}, {"eval", "yv"}, {"fresh", "yf"}, {"late", "yl"}}
+
+func c12RouteByTag(tag string) string {
+	for _, r := range c12Routes {
+		if r.tag == tag {
+			return r.pfx
+		}
+	}
+	return ""
+}
+
+// reread evaluates the source text again by one route and compares the result(s) with the first reading:
+// cmp (first non-zero) and eq (0 as soon as one differs; 8 when one reading is a value and the other is none).
+func (z *c12Sess) reread(t *c12Table, route, text string, first object.Object) (c, e int) {
+	var src string
+	switch route {
+	case "twice":
+		src = "zqy = [" + text + "," + text + "]"
+	case "eval":
+		src = "zqy = [eval(" + strconv.Quote(text) + ")]"
+	default:
+		src = "zqy = [" + text + "]"
+	}
+	var got []object.Object
+	if st, msg := z.run(src); st == 0 {
+		if o, st := z.get("zqy"); st == 0 {
+			if arr, isArr := object.Value(o).(object.Array); isArr {
+				for _, el := range arr.Elements() {
+					if el.Type() != object.ERROR {
+						got = append(got, object.Value(el))
+					}
+				}
+			}
+		}
+	} else if first != nil {
+		t.notePanic("reading %s again (%s): %s", text, route, msg)
+	}
+	want := 1
+	if route == "twice" {
+		want = 2
+	}
+	switch {
+	case first == nil && len(got) == 0:
+		return 0, 1 // no value the first time, none now
+	case first == nil || len(got) != want:
+		return 0, 8
+	}
+	c, e = 0, 1
+	for _, o := range got {
+		if r := c12GoCmp(first, o, t); c == 0 {
+			c = r
+		}
+		if r := c12GoEq(first, o, t); r != 1 && e == 1 {
+			e = r
+		}
+	}
+	if c != 0 || e != 1 {
+		t.notePanic("the text %s read again (%s) is %s, the first time it was %s", text, route, got[len(got)-1].Inspect(), first.Inspect())
+	}
+	return c, e
+}
+
 // c12Evaluate records the relation table of the universe u on the real code.
 func c12Evaluate(u []c12Val, src string) (*c12Table, error) {
 	defer c12Quiet()()
@@ -911,7 +1102,26 @@ func c12Evaluate(u []c12Val, src string) (*c12Table, error) {
 				if pfx == "zqv" {
 					srcObjs[i] = object.Value(o)
 				}
-				if got := c12Abstract(o).canon(); got != ident[i] {
+				text := c12Source(a)
+				got := c12Abstract(o).canon()
+				if got == ident[i] {
+					if _, seen := c12FirstReading[text]; !seen {
+						c12FirstReading[text] = got
+					}
+				} else {
+					if _, seen := c12FirstReading[text]; !seen {
+						// this process reads the text as a whole for the first time, but not its literals: what the
+						// text is the first time a process reads it decides whether the notation is the harness's mistake
+						if first, err := c12ReadInFreshProcess(text); err == nil {
+							c12FirstReading[text] = first
+						}
+					}
+					if c12FirstReading[text] == ident[i] {
+						// the text was the constructed object when this process read it first: now it is read again
+						// and is something else (observations xc / xe, the reread routes; law copy_equal)
+						t.notePanic("the source text %s evaluates to %s now, it was %s when it was first read in this process", text, got, ident[i])
+						continue
+					}
 					if c12Written(a) {
 						// a number written in a notation of its own: what the interpreter reads it as is under
 						// test (observations xc / xe: the constructed object against the value of the source
@@ -941,6 +1151,25 @@ func c12Evaluate(u []c12Val, src string) (*c12Table, error) {
 	srcText := make([]string, n)
 	for i, a := range u {
 		srcText[i] = c12Source(a)
+	}
+	// the source text of every value read again: in a later input of the session, twice in one input, through
+	// eval, in another interpreter state of this process (and once more after the table is recorded, below)
+	for _, r := range c12Routes {
+		t.V[r.pfx+"c"], t.V[r.pfx+"e"] = make([]int, n), make([]int, n)
+	}
+	t.V["yp"] = make([]int, n)
+	other := c12NewSess()
+	for _, r := range c12Routes {
+		if r.tag == "late" {
+			continue
+		}
+		for i := range u {
+			sess := z
+			if r.tag == "fresh" {
+				sess = other
+			}
+			t.V[r.pfx+"c"][i], t.V[r.pfx+"e"][i] = sess.reread(t, r.tag, srcText[i], srcObjs[i])
+		}
 	}
 	for i := 0; i < n; i++ {
 		for j := 0; j < n; j++ {
@@ -1005,6 +1234,28 @@ func c12Evaluate(u []c12Val, src string) (*c12Table, error) {
 						}
 						t.M[f.pfx+op][i][j] = decode7(k, o)
 					}
+				}
+			}
+		}
+	}
+	// after the whole table: every text once more, and the observations of the pairs (i, i) and (i, next of i)
+	// asked again with the very same inputs
+	again := &c12Table{N: n, U: u, M: map[string][][]int{}, V: map[string][]int{}}
+	for name := range t.M {
+		again.M[name] = c12Matrix(n)
+	}
+	for i := range u {
+		t.V["ylc"][i], t.V["yle"][i] = z.reread(t, "late", srcText[i], srcObjs[i])
+		for _, j := range []int{i, (i + 1) % n} {
+			if !z.pairAtOnce(again, i, j, "zqv"+strconv.Itoa(i+1), "zqv"+strconv.Itoa(j+1), ident, decode7) {
+				continue // no answer as one input this time: the first time it was taken operator by operator (panics)
+			}
+			for name, m := range again.M {
+				if name != "cmp" && name != "eq" && name != "look" && m[i][j] != t.M[name][i][j] {
+					if t.V["yp"][i] == 0 {
+						t.notePanic("%s of (%s, %s) was %d when the table was recorded and is %d when the same input is evaluated again", name, srcText[i], srcText[j], t.M[name][i][j], m[i][j])
+					}
+					t.V["yp"][i]++
 				}
 			}
 		}
@@ -1238,6 +1489,9 @@ func c12LawHolds(t *c12Table, law, info string, x, y, z int) bool {
 		case "written":
 			return t.V["xc"][x] != 99 && t.V["xe"][x] != 9
 		}
+		if r := c12RouteByTag(info); r != "" {
+			return t.V[r+"c"][x] != 99 && t.V[r+"e"][x] != 9
+		}
 		if m, ok := t.M[info]; ok {
 			return m[x][y] != 9
 		}
@@ -1255,6 +1509,14 @@ func c12LawHolds(t *c12Table, law, info string, x, y, z int) bool {
 		if m, ok := t.M[info]; ok {
 			return m[x][y] == 1 || m[x][y] >= 8
 		}
+	case "reread_equal":
+		e := t.V[c12RouteByTag(info)+"e"][x]
+		return e == 1 || e == 9
+	case "reread_equivalent":
+		r := t.V[c12RouteByTag(info)+"c"][x]
+		return r == 0 || r == 99
+	case "answers_repeat":
+		return t.V["yp"][x] == 0
 	case "cmp_reflexive":
 		return c == 0
 	case "cmp_antisymmetric":
@@ -1388,6 +1650,20 @@ func c12Describe(law, info string, vals []c12Val, x, y, z int, t *c12Table) stri
 		s += "(" + info + ")"
 	}
 	s += fmt.Sprintf(" broken for a = %s (%s), b = %s (%s)", a, kind(vals[x]), b, kind(vals[y]))
+	if strings.HasPrefix(law, "reread_") || law == "answers_repeat" {
+		if r := c12RouteByTag(info); r != "" {
+			s += fmt.Sprintf(": the same source text read again (%s) is not a copy of what it was when the session first read it: cmp=%d equals=%d (8: a value one time, none the other)",
+				info, t.V[r+"c"][x], t.V[r+"e"][x])
+		} else {
+			s += fmt.Sprintf(": %d observations of (a, a) / (a, the next value) differ when the same input is evaluated again", t.V["yp"][x])
+		}
+		for _, note := range t.panics {
+			if strings.Contains(note, "("+info+")") || strings.Contains(note, "first read in this process") || strings.Contains(note, "evaluated again") {
+				s += "; " + note
+			}
+		}
+		return s
+	}
 	if info == "written" {
 		s += fmt.Sprintf(": the value the interpreter makes of the source text a against the constructed object (%s): cmp=%d equals=%d",
 			c12SortedCanon(vals[x]), t.V["xc"][x], t.V["xe"][x])
@@ -1430,6 +1706,19 @@ func replayC12(rp map[string]any) (bool, string) {
 	law, _ := rp["law"].(string)
 	info, _ := rp["info"].(string)
 	idx := func(k string) int { f, _ := rp[k].(float64); return int(f) }
+	if rp["unrepeatable"] == true {
+		// the instance was broken when it was recorded and held when the same values were evaluated again: what is
+		// replayed is the repetition itself (twice in this process, the answers must agree and the law must hold)
+		h1, m1 := c12ReplayInstance(law, info, vals, idx("x"), idx("y"), idx("z"))
+		h2, m2 := c12ReplayInstance(law, info, vals, idx("x"), idx("y"), idx("z"))
+		switch {
+		case h1 && h2:
+			return true, ""
+		case !h1:
+			return false, m1
+		}
+		return false, m2
+	}
 	return c12ReplayInstance(law, info, vals, idx("x"), idx("y"), idx("z"))
 }
 
@@ -1475,19 +1764,30 @@ func c12SortedCanon(a c12Val) string {
 		}
 		return "[" + strings.Join(parts, ",") + "]"
 	case "map":
-		val := map[string]string{} // a key that is listed again gets the later value
+		val := map[string]string{} // a key that is listed again gets the later value and keeps its first spelling
+		spelt := map[string]string{}
 		var keys []string
 		for _, p := range a.pairs() {
 			k := c12SortedCanon(p[0])
-			if _, seen := val[k]; !seen {
-				keys = append(keys, k)
+			id := k
+			switch { // 5 and 5.0 are one key (numbers that are exact both as int64 and as float64)
+			case p[0].T == "int" && !c12IntInexact(p[0].int64()):
+				id = "num:" + strconv.FormatFloat(float64(p[0].int64()), 'g', -1, 64)
+			case p[0].T == "float":
+				if f := p[0].float64(); f == math.Trunc(f) && math.Abs(f) < 9.2e18 {
+					id = "num:" + strconv.FormatFloat(f+0, 'g', -1, 64)
+				}
 			}
-			val[k] = c12SortedCanon(p[1])
+			if _, seen := val[id]; !seen {
+				keys = append(keys, id)
+				spelt[id] = k
+			}
+			val[id] = c12SortedCanon(p[1])
 		}
 		sort.Strings(keys)
 		var parts []string
-		for _, k := range keys {
-			parts = append(parts, k+":"+val[k])
+		for _, id := range keys {
+			parts = append(parts, spelt[id]+":"+val[id])
 		}
 		return "{" + strings.Join(parts, ",") + "}"
 	}
@@ -1588,8 +1888,23 @@ func c12Signature(law, info string, vals []c12Val) string {
 			}
 		}
 	}
+	if (strings.HasPrefix(law, "reread_") || law == "answers_repeat") && len(vals) > 0 {
+		// the same text read again / the same comparison asked again
+		w := vals[0].T
+		if h := c12Hows(vals[0]); h != "" && c12Written(vals[0]) {
+			w += "-written-as-" + h
+		}
+		if law == "answers_repeat" {
+			return w + "-answers-change-on-repetition" + suffix
+		}
+		return w + "-read-again-differs" + suffix
+	}
 	if info == "written" && len(vals) > 0 { // the constructed object against the value of its source text
-		return vals[0].T + "-written-as-" + c12Hows(vals[0]) + "-" + family + suffix
+		h := c12Hows(vals[0])
+		if h == "" {
+			h = "plain"
+		}
+		return vals[0].T + "-written-as-" + h + "-" + family + suffix
 	}
 	for i := range vals {
 		for j := range vals {
@@ -1799,12 +2114,71 @@ func c12Rebuilt(r *rand.Rand, a c12Val) c12Val {
 	case "arr":
 		a.How = []string{"", "slice", "grown"}[r.Intn(3)]
 	case "map":
+		a.Cut = nil
 		a.How = []string{"", "shrunk", "dupkeys", "grown", "merged", "merged_head", "merged_tail"}[r.Intn(7)]
 		if a.How == "dupkeys" && len(a.pairs()) == 0 {
 			a.How = "shrunk"
 		}
 	}
 	return a
+}
+
+// c12GenSeam: a sum of two maps whose operands meet or overlap (OrderLaws!Seams, drawn at random), and a twin with
+// the same pairs: the left operand has 1..7 ascending number keys (each an int or, 1 in 4, the float of the same
+// value), the right operand begins at the greatest key of the left one (the same key, or its int/float twin), above
+// it, somewhere inside it, or ends at / below its smallest key; its values are strings, so it is visible which
+// value survives under a shared key.
+func c12GenSeam(r *rand.Rand) (sum, twin c12Val) {
+	num := func(k int, flip bool) c12Val {
+		if flip {
+			return c12Float(float64(k))
+		}
+		return c12Int(int64(k))
+	}
+	nl, nr := 1+r.Intn(7), 1+r.Intn(6)
+	if r.Intn(2) == 0 {
+		nl = 4 + r.Intn(3) // around the size at which the representation changes
+	}
+	lo := r.Intn(4)
+	var ps [][2]c12Val
+	leftFloat := map[int]bool{}
+	for k := lo; k < lo+nl; k++ {
+		leftFloat[k] = r.Intn(4) == 0
+		ps = append(ps, [2]c12Val{num(k, leftFloat[k]), c12Int(int64(k))})
+	}
+	hi := lo + nl - 1
+	var start int
+	switch r.Intn(7) {
+	case 0, 1, 2: // begins at the greatest key of the left operand
+		start = hi
+	case 3: // above it
+		start = hi + 1 + r.Intn(2)
+	case 4: // inside it
+		start = lo + r.Intn(nl)
+	case 5: // ends at its smallest key
+		start = lo - nr + 1
+	default: // ends below it
+		start = lo - nr - r.Intn(2)
+	}
+	step := 1 // mostly consecutive keys, sometimes every other one
+	if r.Intn(4) == 0 {
+		step = 2
+	}
+	for i := 0; i < nr; i++ {
+		k := start + i*step
+		flip := leftFloat[k]
+		if r.Intn(2) == 0 { // the same number as a value of the other type is the same key
+			flip = !flip
+		}
+		ps = append(ps, [2]c12Val{num(k, flip), c12Str("r" + strconv.Itoa(i))})
+	}
+	sum = c12Map(ps)
+	sum.How, sum.Cut = "merged", &nl
+	twin = c12Map(ps) // a literal that lists the same pairs in the same order, or the same assignments one by one
+	if r.Intn(2) == 0 {
+		twin.How = "grown"
+	}
+	return sum, twin
 }
 
 // c12Large: a container beyond the size at which the representation changes.
@@ -1815,8 +2189,17 @@ func c12Large(a c12Val) bool {
 // c12GenUniverse draws n values; epochs > 0 spreads them over that many + 1 epochs of the session.
 func c12GenUniverse(r *rand.Rand, n, epochs int) []c12Val {
 	u := make([]c12Val, 0, n)
+	seam := false
 	for len(u) < n {
 		switch k := r.Intn(10); {
+		case !seam && len(u) >= n/2 && len(u)+1 < n:
+			seam = true
+			// one sum of two maps that meet or overlap and a twin of it, in every universe
+			a, b := c12GenSeam(r)
+			if r.Intn(3) == 0 { // as parts of other values
+				a, b = c12Arr([]c12Val{a}), c12Arr([]c12Val{b})
+			}
+			u = append(u, a, b)
 		case k == 0 && len(u) > 0:
 			u = append(u, c12Rebuilt(r, u[r.Intn(len(u))])) // a copy, maybe built differently
 		case k <= 2 && len(u) > 0:
@@ -2161,9 +2544,10 @@ func c12Report(c *Ctx, tables []*c12Table, broken, disagree []c12Broken) {
 		}
 		return a.Y < b.Y
 	})
-	instances, confirmed := 0, 0
+	instances, confirmed, freshOnly := 0, 0, 0
 	byLaw := map[string]int{}
 	const maxPerSig = 25
+	const maxFresh = 24 // instances re-evaluated in a child process
 	fresh := map[int]*c12Table{}
 	perSig := map[string]int{}
 	tConfirm := time.Now()
@@ -2245,6 +2629,22 @@ func c12Report(c *Ctx, tables []*c12Table, broken, disagree []c12Broken) {
 				holds, msg = c12CheckInstance(fresh[b.B], b.Law, b.Info, idx[0], idx[1], idx[2])
 			} else {
 				holds, msg = c12ReplayInstance(b.Law, b.Info, vals, idx[0], idx[1], idx[2])
+				if !holds && b.Law == "same_value_equal" && len(vals) == 2 {
+					// two arrays that should be the same value: the instance is the first pair of elements that
+					// breaks the law by itself (the maps built differently, not the arrays that carry them)
+					if ea, eb := vals[0].elems(), vals[1].elems(); vals[0].T == "arr" && vals[1].T == "arr" && len(ea) == len(eb) && len(ea) > 1 {
+						for k := range ea {
+							if !c12Same(ea[k], eb[k]) || c12Hows(ea[k]) == c12Hows(eb[k]) {
+								continue
+							}
+							if h, m := c12ReplayInstance(b.Law, b.Info, []c12Val{ea[k], eb[k]}, 0, 1, 1); !h {
+								vals, idx, msg = []c12Val{ea[k], eb[k]}, []int{0, 1, 1}, m
+								sig = c12Signature(b.Law, b.Info, vals)
+								break
+							}
+						}
+					}
+				}
 				if holds && c12HasHistory(t.U) {
 					// what a value does may depend on what the session went through before it was made:
 					// the instance is then the universe of the batch, in its order, and the indices
@@ -2260,15 +2660,58 @@ func c12Report(c *Ctx, tables []*c12Table, broken, disagree []c12Broken) {
 					holds, msg = c12CheckInstance(fresh[b.B], b.Law, b.Info, idx[0], idx[1], idx[2])
 				}
 			}
+			extra := map[string]any{}
 			if holds {
-				c.Infra(fmt.Errorf("TLC reported %s at batch %d (%d,%d,%d) but the instance holds when re-evaluated on the real code", b.Law, b.B, b.X, b.Y, zi))
-				return
+				if h, _ := c12CheckInstance(t, b.Law, b.Info, orig[0], orig[1], orig[2]); h {
+					c.Infra(fmt.Errorf("TLC reported %s(%s) at batch %d (%d,%d,%d) but the harness's reading of the law holds on the very table TLC judged", b.Law, b.Info, b.B, b.X, b.Y, zi))
+					return
+				}
+				// the instance holds in this process NOW.  What a text evaluates to and what a comparison answers
+				// may depend on whether the process has seen it before (tables kept across inputs and interpreter
+				// states): the instance - then the universe of its batch - is evaluated in a process of its own
+				if freshOnly >= maxFresh { // enough instances of this run were settled in processes of their own
+					c.Fail(sig, fmt.Sprintf("law %s(%s) at batch %d (%d,%d,%d) holds when re-evaluated in the process of the check (not re-evaluated in a process of its own: %d instances that were broken only on first use were settled that way before)", b.Law, b.Info, b.B, b.X, b.Y, zi, maxFresh),
+						map[string]any{"law": b.Law, "info": b.Info, "values": vals, "x": idx[0], "y": idx[1], "z": idx[2], "batch": b.B, "universe": t.Src, "fresh_process": true})
+					continue
+				}
+				mk := func(vs []c12Val, ix []int) map[string]any {
+					return map[string]any{"property": "C12", "law": b.Law, "info": b.Info, "values": vs, "x": ix[0], "y": ix[1], "z": ix[2]}
+				}
+				h, m, err := c12FreshProcess(c.Scratch(), mk(vals, idx))
+				if err == nil && h && len(vals) != len(t.U) {
+					if h, m, err = c12FreshProcess(c.Scratch(), mk(t.U, orig)); !h {
+						vals, idx = t.U, orig
+					}
+				}
+				if err != nil {
+					c.Infra(err)
+					return
+				}
+				freshOnly++
+				if !h {
+					holds, msg = false, m+" [evaluated in a process of its own; in the process of the check, where these texts had been read and these values compared before, the same instance holds: the answer depends on repetition]"
+					extra["fresh_process"] = true
+				} else {
+					// broken when the table was recorded, never again: the same input has two different outcomes,
+					// which is what the determinism laws (reread_*, answers_repeat) forbid
+					holds = false
+					vals, idx = t.U, orig
+					sig += "-not-repeatable"
+					msg = fmt.Sprintf("law %s(%s) was broken at (%d,%d,%d) of batch %d (%s) when the table was recorded (%s) and holds whenever the same values are evaluated again (the instance, the universe of the batch, in a process of their own): the same input does not give the same answer twice",
+						b.Law, b.Info, b.X, b.Y, zi, b.B, t.Src, c12Describe(b.Law, b.Info, t.U, orig[0], orig[1], orig[2], t))
+					extra["unrepeatable"] = true
+				}
 			}
 			confirmed++
-			c.Fail(sig, msg, map[string]any{"law": b.Law, "info": b.Info, "values": vals, "x": idx[0], "y": idx[1], "z": idx[2],
-				"batch": b.B, "universe": t.Src})
+			rp := map[string]any{"law": b.Law, "info": b.Info, "values": vals, "x": idx[0], "y": idx[1], "z": idx[2],
+				"batch": b.B, "universe": t.Src}
+			for k, v := range extra {
+				rp[k] = v
+			}
+			c.Fail(sig, msg, rp)
 		}
 	}
+	c.Cov("instances_broken_only_on_first_use_in_a_process", freshOnly)
 	c.Cov("confirm_s", time.Since(tConfirm).Seconds())
 	c.Cov("broken_law_instances_reported", instances)
 	c.Cov("broken_law_instances_confirmed_on_real_code", confirmed)
